@@ -192,6 +192,37 @@ Check C02_minimised_transfer :
     forall w, accepts_items (mkcdfa d' subs) w <-> denotes e w.
 Print Assumptions C02_minimised_transfer.
 
+(** How the hypothesis [subs_ok] of [C02_language] is discharged: it holds when the within-word
+    automata are the raw automata the model builds for the within-word regexes the oracle names,
+    and it survives replacing each of them by an automaton with the same within-word language. *)
+Theorem C02_subs_ok_raw :
+  forall submap pl cd,
+    (forall rid k, assocN rid submap = Some k ->
+       exists rr pick fuel sm states,
+         nthN pl rid = Some rr /\ dfa_from_regex pick fuel sm rr = Ok (sub_dfa cd k, states)) ->
+    subs_ok submap pl cd.
+Proof. exact subs_ok_raw. Qed.
+Check C02_subs_ok_raw :
+  forall submap pl cd,
+    (forall rid k, assocN rid submap = Some k ->
+       exists rr pick fuel sm states,
+         nthN pl rid = Some rr /\ dfa_from_regex pick fuel sm rr = Ok (sub_dfa cd k, states)) ->
+    subs_ok submap pl cd.
+Print Assumptions C02_subs_ok_raw.
+
+Theorem C02_subs_ok_equiv :
+  forall submap pl d subs subs',
+    subs_ok submap pl (mkcdfa d subs) ->
+    (forall k v, waccepts (sub_dfa (mkcdfa d subs') k) v <-> waccepts (sub_dfa (mkcdfa d subs) k) v) ->
+    forall d', subs_ok submap pl (mkcdfa d' subs').
+Proof. exact subs_ok_equiv. Qed.
+Check C02_subs_ok_equiv :
+  forall submap pl d subs subs',
+    subs_ok submap pl (mkcdfa d subs) ->
+    (forall k v, waccepts (sub_dfa (mkcdfa d subs') k) v <-> waccepts (sub_dfa (mkcdfa d subs) k) v) ->
+    forall d', subs_ok submap pl (mkcdfa d' subs').
+Print Assumptions C02_subs_ok_equiv.
+
 (** Non-vacuity: [--o=(x|y) [b "d" || c]...] -- a composite word, a description, a || level, an
     option and a repetition.  The model compiles it (two pop orders), the within-word automaton
     the model builds satisfies [subs_ok], and the judge says [Equal] on the result. *)
